@@ -1,12 +1,9 @@
+import Pure.Label
 /-! C18 probe, leaf: the derived `Ord` of `Label` (variant rank, then code point / number / array order) is a strict
     total order — the hypothesis `StrictTotal` of `Render.lean`. -/
 namespace LO
 
-inductive Label where
-  | greek (c : Char)
-  | alpha (n : Nat)
-  | str (a : List Char)
-deriving DecidableEq
+abbrev Label := Lb.Label
 
 def lexLt : List Char → List Char → Bool
   | [], [] => false
